@@ -42,8 +42,215 @@ def read_classes(odfdo):
                 letters=[ord(c) for c in string.ascii_letters], digits=[ord(c) for c in string.digits])
 
 
+# ------------------------------------------------------------------ the NamedRange.name rule, re-derived from the live setter
+SCANNER_TEMPLATE = '''
+step = ""
+for x in name:
+    if x in LETTERS and step in ("", "A"):
+        step = "A"
+        continue
+    elif step in ("A", "A1") and x in DIGITS:
+        step = "A1"
+        continue
+    else:
+        step = ""
+        break
+if step == "A1":
+    raise ValueError("")
+'''
+
+
+def _ranges(codes):
+    out = []
+    for c in sorted(codes):
+        if out and out[-1][1] == c - 1: out[-1][1] = c
+        else: out.append([c, c])
+    return [tuple(r) for r in out]
+
+
+def _norm_block(stmts, holes):
+    """alpha-normalised dump of a statement list: variable names, string constants and the expressions standing in the
+    two class positions (x in <expr>) are replaced by placeholders; returns (dump, [class expressions in order])"""
+    import ast, copy
+    stmts = copy.deepcopy(stmts)
+    names, consts, classes = {}, {}, []
+
+    class N(ast.NodeTransformer):
+        def visit_Compare(self, node):
+            # "x in <class expression>": keep the shape, lift the expression out
+            if len(node.ops) == 1 and isinstance(node.ops[0], ast.In) and isinstance(node.left, ast.Name) \
+                    and not isinstance(node.comparators[0], ast.Tuple):
+                classes.append(node.comparators[0])
+                node.comparators = [ast.Name(id='CLASS%d' % (len(classes) - 1), ctx=ast.Load())]
+                node.left = self.visit(node.left)
+                return node
+            return self.generic_visit(node)
+
+        def visit_Name(self, node):
+            if node.id in ('ValueError',) or node.id.startswith('CLASS'):
+                return node
+            node.id = names.setdefault(node.id, 'V%d' % len(names))
+            return node
+
+        def visit_Constant(self, node):
+            if isinstance(node.value, str):
+                node.value = consts.setdefault(node.value, 'K%d' % len(consts))
+            return node
+
+        def visit_Raise(self, node):
+            return ast.Raise(exc=None, cause=None)
+    out = [N().visit(st) for st in stmts]
+    return '\n'.join(ast.dump(st) for st in out), classes
+
+
+def _regex_shape(pattern, flags):
+    """re.fullmatch(pattern, name) as a list of (set of code points, 'one' | 'plus'); fail-closed"""
+    try:
+        import re._parser as sp
+    except ImportError:
+        import sre_parse as sp
+    import re
+    if flags & ~re.UNICODE:
+        raise ValueError('unexpected flags on %r' % pattern)
+    allc = range(0x110000)
+
+    def cls_of(op, av):
+        op = str(op)
+        if op == 'LITERAL': return {av}
+        if op == 'NOT_LITERAL': return set(allc) - {av}
+        if op == 'ANY': return set(allc) - {10}
+        if op == 'IN':
+            neg, acc = False, set()
+            for o, v in av:
+                o = str(o)
+                if o == 'NEGATE': neg = True
+                elif o == 'LITERAL': acc.add(v)
+                elif o == 'RANGE': acc.update(range(v[0], v[1] + 1))
+                elif o == 'CATEGORY': acc |= cat(str(v))
+                else: raise ValueError('unexpected class item %r in %r' % ((o, v), pattern))
+            return set(allc) - acc if neg else acc
+        if op == 'CATEGORY': return cat(str(av))
+        raise ValueError('unexpected item %r in %r' % ((op, av), pattern))
+
+    def cat(name):
+        tests = {'CATEGORY_DIGIT': str.isdecimal, 'CATEGORY_SPACE': str.isspace,
+                 'CATEGORY_WORD': lambda ch: ch.isalnum() or ch == '_'}
+        pos = name.replace('CATEGORY_NOT_', 'CATEGORY_')
+        if pos not in tests: raise ValueError('unexpected category %s in %r' % (name, pattern))
+        s_ = {c for c in allc if tests[pos](chr(c))}
+        return set(allc) - s_ if 'NOT_' in name else s_
+    items = []
+    for op, av in sp.parse(pattern, flags):
+        if str(op) == 'MAX_REPEAT':
+            lo, hi, sub = av
+            sub = list(sub)
+            if lo != 1 or str(hi) != 'MAXREPEAT' or len(sub) != 1:
+                raise ValueError('unexpected repetition in %r' % pattern)
+            items.append((cls_of(*sub[0]), 'plus'))
+        else:
+            items.append((cls_of(op, av), 'one'))
+    for (a, qa), (b, qb) in zip(items, items[1:]):
+        if qa == 'plus' and a & b:
+            raise ValueError('adjacent classes of %r overlap: greedy matching would not be exact' % pattern)
+    # cross-check the translation against the regex engine on strings over the class boundaries
+    import random
+    rng = random.Random(0)
+    pool = sorted({c for cl, _ in items for r in _ranges(cl)[:6] for c in (r[0], r[1])} | {48, 65, 95, 0x663, 0xff11, 0x1d7d0})
+    rx = re.compile(pattern, flags)
+    for _ in range(4000):
+        s_ = [rng.choice(pool) for _ in range(rng.randint(0, 6))]
+        if bool(rx.fullmatch(''.join(map(chr, s_)))) != _py_match(items, s_):
+            raise ValueError('translation of %r disagrees with re on %r' % (pattern, s_))
+    return items
+
+
+def _members(coll):
+    """code points c with chr(c) in coll, for a finite container of one-character strings (or a str)"""
+    if isinstance(coll, (str, set, frozenset, list, tuple)) and all(isinstance(ch, str) and len(ch) == 1 for ch in coll):
+        return {ord(ch) for ch in coll}
+    return {c for c in range(0x110000) if chr(c) in coll}
+
+
+def _py_match(items, s):
+    i = 0
+    for cl, q in items:
+        if i >= len(s) or s[i] not in cl: return False
+        i += 1
+        if q == 'plus':
+            while i < len(s) and s[i] in cl: i += 1
+    return i == len(s)
+
+
+def read_nr_rule(T):
+    """(char-reject ranges, first-char-reject ranges, [shape = [(ranges, 'one'|'plus')]]) of the NamedRange.name setter"""
+    import ast, inspect, textwrap, re
+    fn = ast.parse(textwrap.dedent(inspect.getsource(T.NamedRange.name.fset))).body[0]
+    ns = dict(vars(T))
+    param = fn.args.args[1].arg
+    body = list(fn.body)
+    if body and isinstance(body[0], ast.Expr) and isinstance(getattr(body[0], 'value', None), ast.Constant):
+        body = body[1:]
+
+    def is_raise_if(st):
+        return isinstance(st, ast.If) and not st.orelse and len(st.body) == 1 and isinstance(st.body[0], ast.Raise)
+
+    def ev(expr, **env):
+        return eval(compile(ast.Expression(expr), '<setter>', 'eval'), ns, env)
+    charrej, firstrej, shapes = set(), set(), []
+    # 1. name = name.strip() ; if not name: raise
+    st = body.pop(0)
+    if ast.dump(st) != ast.dump(ast.parse('%s = %s.strip()' % (param, param)).body[0]):
+        raise ValueError('setter does not start with %s = %s.strip()' % (param, param))
+    st = body.pop(0)
+    if not (is_raise_if(st) and ast.dump(st.test) == ast.dump(ast.parse('not %s' % param, mode='eval').body)):
+        raise ValueError('missing empty-name test')
+    tmpl_dump, _ = _norm_block(ast.parse(SCANNER_TEMPLATE).body, None)
+    while body:
+        st = body[0]
+        if isinstance(st, ast.With) or (isinstance(st, ast.Expr) and 'set_attribute' in ast.dump(st)):
+            break           # the part that stores the name
+        if isinstance(st, ast.For) and isinstance(st.target, ast.Name) and ast.dump(st.iter) == ast.dump(ast.Name(id=param, ctx=ast.Load())) \
+                and all(is_raise_if(b) for b in st.body) and not st.orelse:
+            # per-character reject tests: evaluated on every code point, whatever their shape
+            var = st.target.id
+            test = ast.BoolOp(op=ast.Or(), values=[b.test for b in st.body]) if len(st.body) > 1 else st.body[0].test
+            fn_ = eval(compile(ast.fix_missing_locations(ast.Expression(ast.Lambda(
+                args=ast.arguments(posonlyargs=[], args=[ast.arg(arg=var)], kwonlyargs=[], kw_defaults=[], defaults=[]), body=test))), '<setter>', 'eval'), ns)
+            charrej |= {c for c in range(0x110000) if fn_(chr(c))}
+            body.pop(0); continue
+        if is_raise_if(st) and isinstance(st.test, ast.Compare) and len(st.test.ops) == 1 and isinstance(st.test.ops[0], ast.In) \
+                and ast.dump(st.test.left) == ast.dump(ast.parse('%s[0]' % param, mode='eval').body):
+            coll = ev(st.test.comparators[0])
+            firstrej |= _members(coll)
+            body.pop(0); continue
+        if is_raise_if(st) and isinstance(st.test, ast.Call) and ast.dump(st.test.func) == ast.dump(ast.parse('re.fullmatch', mode='eval').body) \
+                and len(st.test.args) >= 2 and isinstance(st.test.args[0], ast.Constant) and ast.dump(st.test.args[1]) == ast.dump(ast.Name(id=param, ctx=ast.Load())):
+            flags = ev(st.test.args[2]) if len(st.test.args) > 2 else 0
+            for kw in st.test.keywords:
+                if kw.arg == 'flags': flags = ev(kw.value)
+                else: raise ValueError('unexpected keyword in re.fullmatch')
+            shapes.append(_regex_shape(st.test.args[0].value, int(flags) | re.UNICODE))
+            body.pop(0); continue
+        if len(body) >= 3:
+            dump, classes = _norm_block(body[:3], None)
+            if dump == tmpl_dump and len(classes) == 2:
+                letters = _members(ev(classes[0]))
+                digits = _members(ev(classes[1]))
+                if letters & digits:
+                    raise ValueError('scanner classes overlap')
+                shapes.append([(letters, 'plus'), (digits, 'plus')])
+                del body[:3]; continue
+        raise ValueError('NamedRange.name setter: statement of unknown shape: %s' % ast.dump(st)[:200])
+    return _ranges(charrej), _ranges(firstrej), [[(_ranges(cl), q) for cl, q in sh] for sh in shapes]
+
+
 def write_gen(odfdo):
     c = read_classes(odfdo)
+    import odfdo.table as T
+    charrej, firstrej, shapes = read_nr_rule(T)
+    c['nr_rule'] = dict(charrej=charrej, firstrej=firstrej, shapes=shapes)
+    rl = lambda rs: '[' + ';'.join('(%d,%d)' % r for r in rs) + ']'
+    sl = lambda sh: '[' + ';'.join('(%s, %s)' % (rl(cl), 'QOne' if q == 'one' else 'QPlus') for cl, q in sh) + ']'
     l = lambda xs: '[' + ';'.join(str(x) for x in xs) + ']'
     gen = ('(* GENERATED on every run of ./check C07 from the live odfdo source — do not edit, not committed *)\n'
            'From Coq Require Import List NArith Bool. Import ListNotations.\nLocal Open Scope N_scope.\n'
@@ -51,12 +258,19 @@ def write_gen(odfdo):
            'Definition gen_space : list N := %s.\nDefinition gen_nrf : list N := %s.\n'
            'Definition gen_letters : list N := %s.\nDefinition gen_digits : list N := %s.\n'
            % (l(c['fa']), l(c['ff']), l(c['fl']), l(c['space']), l(c['nrf']), l(c['letters']), l(c['digits'])))
+    gen = gen.replace('From Coq Require Import List NArith Bool. Import ListNotations.\n', 'From Coq Require Import List NArith Bool. Import ListNotations.\nRequire Import Names2.\n', 1)
+    gen += ('(* the NamedRange.name rule re-derived from the live setter (per-character tests evaluated on every code point) *)\n'
+            'Definition gen_nr_charrej : ranges := %s.\nDefinition gen_nr_firstrej : ranges := %s.\n'
+            'Definition gen_nr_shapes : list (list ritem) := [%s].\n' % (rl(charrej), rl(firstrej), ';\n  '.join(sl(sh) for sh in shapes)))
     ok = ('(* GENERATED: the finite obligations that tie the generated classes to the specification *)\n'
-          'From Coq Require Import List NArith Bool. Import ListNotations.\nRequire Import Names Namesproof Namesproof2 Gen_Names.\nLocal Open Scope N_scope.\n'
+          'From Coq Require Import List NArith Bool. Import ListNotations.\nRequire Import Names Namesproof Namesproof2 Names2 Names2proof Gen_Names.\nLocal Open Scope N_scope.\n'
           'Theorem gen_table_name_is_lo : forall s, table_name_ok gen_fa gen_ff gen_fl gen_space s = lo_tab_name_ok gen_space s.\n'
           'Proof. apply table_name_equiv; vm_compute; reflexivity. Qed.\nPrint Assumptions gen_table_name_is_lo.\n'
           'Theorem gen_range_name_is_lo : forall s, nr_name_ok_fixed gen_letters gen_digits gen_space s = lo_range_name_ok gen_space s.\n'
-          'Proof. apply nr_fixed_equiv; vm_compute; reflexivity. Qed.\nPrint Assumptions gen_range_name_is_lo.\n')
+          'Proof. apply nr_fixed_equiv; vm_compute; reflexivity. Qed.\nPrint Assumptions gen_range_name_is_lo.\n'
+          '(* the rule of the live setter, as derived on this run, is the rule of the specification *)\n'
+          'Theorem gen_setter_rule_is_lo : forall s, nr_rule_ok gen_space gen_nr_charrej gen_nr_firstrej gen_nr_shapes s = lo_range_name_ok gen_space s.\n'
+          'Proof. apply nr_rule_equiv; [reflexivity|reflexivity|first [left; reflexivity|right; reflexivity]]. Qed.\nPrint Assumptions gen_setter_rule_is_lo.\n')
     for name, txt in (('Gen_Names.v', gen), ('Gen_Namesok.v', ok)):
         p = common.TH / name
         if not p.exists() or p.read_text() != txt:
